@@ -30,6 +30,9 @@ pub struct GridCheck {
     /// names of one class); batches keep groups together
     pub group: usize,
     /// cross-case oracle over the reports of one batch: (case index, violation detail)
+    /// a generated program that does not compile on the macro side is a violation (properties with a
+    /// compile-time side) or leaves the program undecided (pure run-time properties)
+    pub compile_decides: bool,
     pub post: Option<fn(&[Prog], &[Value]) -> Vec<(usize, Value)>>,
 }
 
@@ -290,6 +293,7 @@ pub fn run(check: GridCheck, tier: &str, seed: u64) -> i32 {
     }
     ev.programs = progs.len() as u64;
     let mut found: Vec<Found> = Vec::new();
+    let mut undecided: Vec<(String, String)> = Vec::new();
     let pkg = format!("jvb_{}", check.id.to_lowercase());
     let mut exit = 0;
     let bsize = (check.batch_size.max(1) / check.group.max(1)).max(1) * check.group.max(1);
@@ -299,7 +303,12 @@ pub fn run(check: GridCheck, tier: &str, seed: u64) -> i32 {
             ev.infra.extend(res.infra.iter().cloned());
         }
         for (k, v) in &res.compile_fail {
-            found.push(Found { prog: chunk[*k].clone(), detail: json!({"compile_errors": v}), compile: true });
+            if check.compile_decides {
+                found.push(Found { prog: chunk[*k].clone(), detail: json!({"compile_errors": v}), compile: true });
+            } else {
+                // a run-time property cannot be decided for a program the tree cannot compile
+                undecided.push((render::macro_body(&chunk[*k]).replace("\n        ", " "), v.first().cloned().unwrap_or_default()));
+            }
         }
         let mut reported: HashSet<usize> = HashSet::new();
         for r in &res.reports {
@@ -388,6 +397,18 @@ pub fn run(check: GridCheck, tier: &str, seed: u64) -> i32 {
         );
         evid::print_violation(&check.id, &replay);
         exit = 1;
+    } else if !undecided.is_empty() {
+        let (p, e) = &undecided[0];
+        eprintln!(
+            "inconclusive: {} generated programs do not compile against this tree, so {} (a run-time property) cannot be decided for them; no violation among the {} that do. First: {} :: {}",
+            undecided.len(),
+            check.id,
+            ev.programs as usize - undecided.len().min(ev.programs as usize),
+            p.chars().take(600).collect::<String>(),
+            e.chars().take(300).collect::<String>()
+        );
+        ev.infra.push(format!("{} generated programs do not compile against this tree (undecided)", undecided.len()));
+        exit = 2;
     } else if !ev.infra.is_empty() && ev.evaluations == 0 {
         eprintln!("infrastructure failure: {}", ev.infra.join("\n"));
         exit = 2;
